@@ -542,19 +542,26 @@ fn directed_prelude(ty: &str, rng: &mut Rng) -> Option<(u64, Vec<Vec<u64>>)> {
             ]))
         }
         // a key remove that overtakes an update it covers, while an older update it does NOT cover is already there:
-        // the covered update carries a nested edit (remove / overwrite) whose effect reaches the uncovered content
+        // the covered update carries a nested edit (remove / overwrite) whose effect reaches the uncovered content.
+        // (The remover's context {A:1} comes from an entry whose other witness D:1 a third replica had removed, so that
+        // no nested remove is ever parked and lost at the remover.)
         "mapor" | "mapmm" | "mapmo" | "mapmv" if rng.below(7) == 0 => Some((1, vec![
             vec![K_EDIT, ra, 0, 0, 1, m0, 0],            // D: update k0                                  (op 0)
             vec![K_DELIVER, rb, nodup, 0],               // A has seen it
             vec![K_EDIT, rb, 0, 0, 1, m0, 3],            // A: update k0 with a nested remove / overwrite  (op 1)
-            vec![K_DELIVER, rc, nodup, 1],               // B gets A's update only (per-actor order allows it)
-            vec![K_EDIT, rc, 0, 5],                      // B: rm k0, context {A:1}                        (op 2)
-            vec![K_SPAWN, 0, 3],                         // fresh R
-            vec![K_DELIVER, 3, nodup, 0],                // R gets D's update
-            vec![K_DELIVER, 3, nodup, 1],                // R gets the key remove: parked (A:1 unseen)
-            vec![K_DELIVER, 3, nodup, 0],                // R gets A's update: applied, then the parked remove fires
-            vec![K_DELIVER, ra, nodup, 0],               // D's replica: A's update, then the remove (causal order)
-            vec![K_DELIVER, ra, nodup, 0],
+            vec![K_SPAWN, 0, 3],                         // fresh E
+            vec![K_DELIVER, 3, nodup, 0],                // E gets D's update only
+            vec![K_EDIT, 3, 0, 5],                       // E: rm k0, context {D:1}                        (op 2)
+            vec![K_DELIVER, rc, nodup, 0],               // C gets D's update,
+            vec![K_DELIVER, rc, nodup, 0],               //   A's update,
+            vec![K_DELIVER, rc, nodup, 0],               //   E's remove: the entry is left with witness A:1
+            vec![K_EDIT, rc, 0, 5],                      // C: rm k0, context {A:1}                        (op 3)
+            vec![K_SPAWN, 0, 4],                         // fresh R
+            vec![K_DELIVER, 4, nodup, 0],                // R gets D's update
+            vec![K_DELIVER, 4, nodup, 2],                // R gets C's remove: parked (A:1 unseen)
+            vec![K_DELIVER, 4, nodup, 0],                // R gets A's update: applied, then the parked remove fires
+            vec![K_DELIVER, ra, nodup, 0],               // D's replica: A's update, then C's remove (causal order)
+            vec![K_DELIVER, ra, nodup, 1],
         ])),
         // a key witnessed by two actors; two removers each saw a different single witness; the two holders
         // (each applied one of the removes) meet in a merge: nothing is left of the entry on either side
